@@ -68,7 +68,7 @@ def stepModel (fx : Fixes) (line : String) : String :=
     | .ok c =>
       s!"ok {c.fanout} {c.connectTimeout} {c.commandTimeout} {Hex.encodeChars c.ruser} {optHex c.rcmdName} " ++
       s!"{optHex c.miscModules} {Hex.encodeChars c.remotePath} q={b01 c.infoOnly} S={b01 c.retRemoteRc} " ++
-      s!"k={b01 c.killOnFail} term={b01 (runTerminates c)} mw={String.ofList (miscWinner c)}"
+      s!"k={b01 c.killOnFail} term={b01 (runTerminates c)} mw={String.ofList (miscWinner c)} z={b01 c.pcpServer}"
   | _, _, _, _ => "bad-op"
 
 def sources (ws : List String) (c e : String) : Spec.Sources :=
